@@ -106,7 +106,8 @@ TEXT["C17"] = ("Theorems with the fault position universally quantified: a throw
                "the pointer's copy assignment give the strong guarantee; block+table allocation returns the first block when the second "
                "throws; construction, reserve, copy construction and move assignment under fault leave every vector and the ledger exactly "
                "as before; copy assignment under fault leaves the source and all other vectors unchanged and the target a valid empty vector "
-               "that owns its block (basic guarantee), without ledger errors. Offset-table leak of lists with VaryingSize: known finding "
+               "that owns its block (basic guarantee), without ledger errors; and the refinement of whole histories in which any allocation may throw "
+               "and the caller goes on (history_with_allocation_failures): every vector keeps representing a plain sequence. Offset-table leak of lists with VaryingSize: known finding "
                "(C07). Correspondence: systematic fault matrix (every allocation index of every operation) plus random faults, with "
                "liveness reads afterwards.")
 TEXT["C19"] = ("Theorems on the access model: const operations write nothing of the shared state, copying reads only, so any schedule of const "
